@@ -139,6 +139,7 @@ def run_property(ctx, which, props_file):
         real_outcomes_oracle(ctx, 400 if thorough else 60)
     if which == 'C01':
         unicode_pipe_oracle(ctx, 400 if thorough else 40)
+        awaited_idle_conservation(ctx, 150 if thorough else 25)
         real_transport_conservation(ctx, (0, 100, 6000, 70000) if thorough else (100, 6000), (2000, 64, 1, 100000) if thorough else (2000, 64))
 
 
@@ -653,3 +654,76 @@ def real_outcomes_oracle(ctx, n):
                     {'transport': transport, 'data': list(data), 'ending': ending, 'listed': listed, 'use_poll': up})
             return
     ctx.oracle_stats['real_outcomes'] = tried
+
+
+def awaited_idle_conservation(ctx, n):
+    """C01 through the awaited entry point under a real event loop: after a match the child writes more and ends its stream WHILE NO
+    CALL IS OUTSTANDING (the loop keeps running); the next awaited calls hand back the rest - nothing of it is lost with the end"""
+    import asyncio
+    import socket
+    from pexpect import fdpexpect, socket_pexpect
+    pexpect = common.preflight()
+    rng = ctx.rng
+    tried = 0
+    for it in range(n):
+        transport = rng.choice(['pipe', 'socket'])
+        head = bytes(rng.choice(b'ab') for _ in range(rng.randint(0, 5)))
+        tail = bytes(rng.choice(b'abMARK') for _ in range(rng.randint(0, 9)))
+        if transport == 'pipe':
+            r, w = os.pipe()
+            c = fdpexpect.fdspawn(r, timeout=5)
+            wr, end = (lambda b: os.write(w, b) if b else None), (lambda: os.close(w))
+            last = [lambda: os.close(r)]
+        else:
+            a, b = socket.socketpair()
+            c = socket_pexpect.SocketSpawn(a, timeout=5)
+            wr, end = (lambda x: b.sendall(x) if x else None), b.close
+            last = [a.close]
+        got = []
+
+        async def go():
+            wr(head + b'#')
+            await c.expect_exact(b'#', async_=True)
+            got.append(c.before + c.after)
+            wr(tail)
+            end()
+            await asyncio.sleep(rng.choice([0.0, 0.05, 0.2]))       # the loop runs, nobody is waiting
+            if rng.random() < 0.5:
+                try:
+                    await c.expect_exact([b'MARK'], timeout=1, async_=True)
+                    got.append(c.before + c.after)
+                except pexpect.EOF:
+                    got.append(c.before)
+                    return
+            try:
+                await c.expect(pexpect.EOF, timeout=2, async_=True)
+                got.append(c.before)
+            except Exception as e:
+                got.append(('raised', repr(e)))
+        loop = asyncio.new_event_loop()
+        try:
+            asyncio.set_event_loop(loop)
+            loop.run_until_complete(go())
+        except Exception as e:
+            got.append(('raised', repr(e)))
+        finally:
+            try:
+                if c.async_pw_transport:
+                    c.async_pw_transport[1].close()
+            except Exception:
+                pass
+            loop.run_until_complete(asyncio.sleep(0))
+            loop.close()
+            asyncio.set_event_loop(None)
+            for f_ in last:
+                try:
+                    f_()
+                except Exception:
+                    pass
+        tried += 1
+        bad = [g for g in got if not isinstance(g, bytes)]
+        if bad or b''.join(got) != head + b'#' + tail:
+            ctx.hit('C01/awaited-idle', '%s: the peer wrote %r, then (after the first awaited match) %r and closed while no call was outstanding; the awaited calls handed back %r'
+                    % (transport, head + b'#', tail, got), {'transport': transport, 'head': list(head), 'tail': list(tail)})
+            return
+    ctx.oracle_stats['awaited_idle_streams'] = tried
